@@ -114,8 +114,13 @@ pub fn configs() -> Vec<NodeCfg> {
 }
 
 pub fn run_sequence(cfg: &NodeCfg, seq: &[&Sym], rng_seed: u64) -> (sim::RunResult, single::Findings) {
+    run_sequence_at(cfg, seq, rng_seed, 0)
+}
+
+/// The same, with the first symbol `offset_ms` after the node is ready (an idle node in between).
+pub fn run_sequence_at(cfg: &NodeCfg, seq: &[&Sym], rng_seed: u64, offset_ms: u64) -> (sim::RunResult, single::Findings) {
     let mut b = single::build(cfg, 0, rng_seed);
-    let mut t = b.ready_ms + 100;
+    let mut t = b.ready_ms + 100 + offset_ms;
     for sym in seq {
         for (k, (client, cmd)) in sym.iter().enumerate() {
             b.sc.actions.push((When::At(t + 20 * k as u64), Action::PeerCommand { peer: single::client_addr(*client), cmd: cmd.clone() }));
@@ -172,7 +177,7 @@ pub fn replay(v: &Value) -> i32 {
         .map(|a| a.iter().map(|s| s.as_array().unwrap().iter().map(|c| (c[0].as_u64().unwrap() as usize, c[1].as_str().unwrap().to_string())).collect()).collect())
         .unwrap_or_default();
     let refs: Vec<&Sym> = seq.iter().collect();
-    let (res, f) = run_sequence(&cfg, &refs, v["rng_seed"].as_u64().unwrap_or(1));
+    let (res, f) = run_sequence_at(&cfg, &refs, v["rng_seed"].as_u64().unwrap_or(1), v["offset_ms"].as_u64().unwrap_or(0));
     let node = single::node_addr(cfg.v6);
     for d in res.wire.iter().filter(|d| (d.src == node || d.dst == node) && d.sent_ms >= 1000) {
         let p = krpc::parse(&d.bytes);
@@ -256,6 +261,44 @@ pub fn run(tier: Tier) -> Report {
     let cfgs = configs();
     let full = full_alphabet();
     let reduced = reduced_alphabet();
+    // layer 0: the announce symbols (fetch a token, announce with it 40 ms later) on a node that has been
+    // idle for a while: "token right" must be acknowledged whatever the age of the node's secrets
+    {
+        let late_syms: Vec<usize> = full.iter().enumerate().filter(|(_, (l, _))| l.starts_with("announce port=7777 token=") && l.ends_with("src0 tid8")).map(|(i, _)| i).collect();
+        let offsets: Vec<u64> = tier.pick(vec![301_000, 660_000, 1_260_000, 1_860_000], vec![1_000, 299_000, 301_000, 599_000, 601_000, 660_000, 899_000, 901_000, 1_260_000, 1_799_000, 1_860_000, 3_600_000]);
+        let mut late: Vec<(usize, usize, u64)> = vec![];
+        for (ci, c) in cfgs.iter().enumerate() {
+            if c.read_only || c.store || c.table == 3 {
+                continue;
+            }
+            for &si in &late_syms {
+                for &o in &offsets {
+                    late.push((ci, si, o));
+                }
+            }
+        }
+        let outs = par_map(&late, |_, (ci, si, o)| {
+            let (res, f) = run_sequence_at(&cfgs[*ci], &[&full[*si].1], seed, *o);
+            (res.wire.len() as u64, f)
+        });
+        for ((ci, si, o), (wire, f)) in late.iter().zip(outs.iter()) {
+            rep.add("transitions", *wire);
+            rep.add("replies_checked", f.replies_checked);
+            rep.add("announce_acks", f.acks);
+            rep.add("announce_203", f.refusals_203);
+            rep.add("idle_node_runs", 1);
+            for (tag, sig, what) in &f.items {
+                if *tag != "C05" && *tag != "C06" {
+                    continue;
+                }
+                rep.violation(
+                    format!("{sig} idle-node"),
+                    format!("{what} [cfg {:?}, symbol {:?} after {} ms of idling]", cfgs[*ci], full[*si].0, o),
+                    json!({"engine":"E1","check":"C05","cfg":cfg_json(&cfgs[*ci]),"rng_seed":seed,"offset_ms":o,"sequence":[sym_json(&full[*si].1)]}),
+                );
+            }
+        }
+    }
     // layer 1: every single symbol of the full alphabet in every configuration
     let mut work: Vec<(usize, Vec<usize>, bool)> = vec![];
     for ci in 0..cfgs.len() {
